@@ -1,6 +1,7 @@
 // C05: wrong, missing or surplus parameters raise the right error and are never mis-delivered;
 //      the input call returns false exactly when it overran or the last message it executed raised an error.
 // Parameter lists are built from items whose class and value are known by construction (Appendix A.1 of DESIGN.md).
+#include <memory>
 #include "../world.h"
 
 namespace {
@@ -456,21 +457,26 @@ struct PRun {
         for (const ReaderStep &st : hs.steps) {
             if (v.violated) break;
             if (st.reader == R_ARR_I32 || st.reader == R_ARR_DBL) {
-                // array reader = up to 3 scalar reads, first as requested, rest optional, stops at the first failure
+                // array reader = up to `cap` scalar reads (3, or 1024 for waveform-style uploads), first as requested, rest optional,
+                // stops at the first failure
                 int inner = st.reader == R_ARR_I32 ? R_I32 : R_DOUBLE;
                 size_t mark = w.errs.size();
                 size_t got = 0;
-                int32_t a32[3];
-                double ad[3];
-                scpi_bool_t r = st.reader == R_ARR_I32 ? SCPI_ParamArrayInt32(w.ctx, a32, 3, &got, SCPI_FORMAT_ASCII, st.mandatory)
-                                                       : SCPI_ParamArrayDouble(w.ctx, ad, 3, &got, SCPI_FORMAT_ASCII, st.mandatory);
+                const size_t cap = st.bufmode > 0 ? 1024 : 3;
+                std::unique_ptr<int32_t[]> a32h(new int32_t[cap]);
+                std::unique_ptr<double[]> adh(new double[cap]);
+                int32_t *a32 = a32h.get();
+                double *ad = adh.get();
+                scpi_bool_t r = st.reader == R_ARR_I32 ? SCPI_ParamArrayInt32(w.ctx, a32, cap, &got, SCPI_FORMAT_ASCII, st.mandatory)
+                                                       : SCPI_ParamArrayDouble(w.ctx, ad, cap, &got, SCPI_FORMAT_ASCII, st.mandatory);
                 (void) r;
+                if (got > 256) COUNT("probe_more_than_256_parameters_read_in_one_unit");
                 std::vector<int> codes = codes_since(mark);
                 // model
                 std::vector<int> want;
                 size_t consumed = 0, okcount = 0;
                 if (!malformed) {
-                    for (size_t k = 0; k < 3; k++) {
+                    for (size_t k = 0; k < cap; k++) {
                         if (next + k >= pu.items.size()) {
                             if (k == 0 && st.mandatory) want.push_back(-109);
                             break;
@@ -485,7 +491,7 @@ struct PRun {
                         okcount++;
                     }
                     bool leading_dot_case = false;
-                    for (size_t k = 0; k < consumed && k < 3; k++) {
+                    for (size_t k = 0; k < consumed && k < cap; k++) {
                         const Item &it = pu.items[next + k];
                         if (inner == R_I32 && it.cls == C_DEC && !isdigit((unsigned char) it.lit[it.lit[0] == '+' || it.lit[0] == '-' ? 1 : 0])) leading_dot_case = true;
                     }
@@ -594,6 +600,18 @@ void execute_c05(const Plan &plan, Verdict &v) {
             it.ws_after = (int) clampl(op.arg(2), 0, 3);
             it.lit = op.s;
             run.units.back().items.push_back(it);
+        } else if (op.kind == "pmany" && in_msg && !run.units.empty()) {
+            // a long list of small decimal items (a waveform or sequence upload), generated from a seed
+            long n = clampl(op.arg(0), 1, 1500);
+            uint64_t x = (uint64_t) op.arg(1);
+            for (long k = 0; k < n; k++) {
+                x = mix64(x + (uint64_t) k);
+                Item it;
+                it.cls = C_DEC;
+                it.lit = std::to_string((long) (x % 2001) - 1000);
+                it.ws_before = (x >> 20) % 16 == 0 ? 1 : 0;
+                run.units.back().items.push_back(it);
+            }
         } else if (op.kind == "pbig" && in_msg && !run.units.empty()) {
             // a block item of more than 65535 bytes, generated from a content seed (no terminator bytes inside, see is_blk)
             size_t blen = (size_t) clampl(op.arg(0), 1, 100000);
@@ -956,6 +974,18 @@ void generate_c05(Rng &r, const GenOpts &g, Plan &p) {
         p.ops.push_back(Op("endmsg", {(long) r.below(3)}));
         return;
     }
+    if (r.chance(1, 400)) {
+        // one unit with a list of hundreds of items, read by an array reader with room for all of them (and some more after it)
+        long n = r.chance(1, 2) ? r.range(250, 264) : r.range(100, 900);
+        p.knob["inbuf"] = 8000;
+        p.ops.push_back(Op("h", {0, -222}));
+        p.ops.push_back(Op("rd", {r.chance(1, 2) ? R_ARR_I32 : R_ARR_DBL, 1, 1}));
+        if (r.chance(1, 2)) p.ops.push_back(Op("rd", {R_I32, 0, 0}));
+        p.ops.push_back(Op("u", {0, 0}));
+        p.ops.push_back(Op("pmany", {n, (long) r.below(1000000)}));
+        p.ops.push_back(Op("endmsg", {(long) r.below(3)}));
+        return;
+    }
     long nh = r.range(1, 4);
     std::vector<std::vector<ReaderStep>> sigs;
     for (long h = 0; h < nh; h++) {
@@ -971,6 +1001,7 @@ void generate_c05(Rng &r, const GenOpts &g, Plan &p) {
             if (!mand) seen_optional = true;
             long bufmode = (rd == R_COPYTEXT && r.chance(1, 2)) ? r.range(1, 3) : 0;
             if (bufmode == 3 && r.chance(1, 2)) bufmode = 1;
+            if ((rd == R_ARR_I32 || rd == R_ARR_DBL) && r.chance(1, 4)) bufmode = 1;   // room for 1024 elements instead of 3
             sig.push_back(ReaderStep{rd, mand, (int) bufmode});
             p.ops.push_back(Op("rd", {rd, mand ? 1 : 0, bufmode}));
         }
